@@ -43,6 +43,13 @@ Theorem C04_chunking_total : forall g fetch ids,
 Proof. exact chunking_total. Qed.
 Print Assumptions C04_chunking_total.
 
+(* the per-request list of fractions is fixed: the batch loader applies FetchDocs to the SAME fractions for
+   every chunk (with C04_fetch_exact: the answer to a chunk does not depend on what earlier chunks asked) *)
+Theorem C04_same_fractions_every_chunk : forall g fs ids,
+  batches g fs ids = batch_loop (S (length ids)) (calc_now g) (fetch_docs g fs) ids (init_chunk g).
+Proof. exact batches_same_fracs. Qed.
+Print Assumptions C04_same_fractions_every_chunk.
+
 (* the batches of a request: each holds at least one entry, together one entry per requested ID *)
 Theorem C04_batches_cover : forall B g frs ids, cfg_ok g -> corpus_wf B frs -> req_ok B ids ->
   Forall (fun k => 1 <= k) (batch_lens (batches g (map compile frs) ids)) /\
